@@ -73,3 +73,33 @@ SEV_HANDLER(parseseq)
     r.set("reused", a);
     r.set("fresh", f);
 }
+
+// {"op":"parsetoks","seqs":[[tokens...]...]}: every input is the concatenation of its tokens (a token may be a
+// list of byte values); one Parser object is reused for all inputs and compared with a fresh parse of each.
+//  r.reused[i], r.fresh[i] = {exc, v};  r.sbml[i] = {exc} (parse_sbml of the same text: outcome only)
+SEV_HANDLER(parsetoks)
+{
+    Parser reused;
+    J a = J::arr(), f = J::arr(), sb = J::arr();
+    for (auto &seq : c.at("seqs").a) {
+        std::string s;
+        for (auto &t : seq.a) {
+            s += t.at("s").s;
+            for (auto &b : t.at("b").a)
+                s.push_back((char)(unsigned char)b.i);
+        }
+        J o1 = J::obj(), o2 = J::obj(), o3 = J::obj();
+        J d1 = term("Null"), d2 = term("Null");
+        o1.set("exc", guarded([&] { d1 = dump(reused.parse(s)); }));
+        o1.set("v", d1);
+        o2.set("exc", guarded([&] { d2 = dump(parse(s)); }));
+        o2.set("v", d2);
+        o3.set("exc", guarded([&] { parse_sbml(s); }));
+        a.push(o1);
+        f.push(o2);
+        sb.push(o3);
+    }
+    r.set("reused", a);
+    r.set("fresh", f);
+    r.set("sbml", sb);
+}
